@@ -11,7 +11,7 @@ import numpy as np
 
 from ..base import Result
 from ..gen import dom_vec
-from ..metrics_table import NAMES, SQRT_FORMS, T, reference
+from ..metrics_table import EXTREME_SCALES, NAMES, SQRT_FORMS, T, reference
 
 ID = "C06"
 RULE = ("Per case one (metric, length, input-class, memory-layout) cell: vectors drawn from the metric's domain "
@@ -23,13 +23,13 @@ ASSUMPTIONS = [
     "closed forms and constant conventions are those transcribed in opfmon/metrics_table.py (Prasath et al. 2017, Cha 2007, Hassanat 2014)",
     "value comparison is on well-conditioned (independent) vectors; near-identical / parallel pairs are judged by C08's axioms instead",
     "decorated metrics are compared against the closed form at (x+1e-20, y+1e-20), the library's documented shift",
-    "magnitudes up to 1e3 (R) / 5e2 (P)",
+    "magnitudes up to 1e3 (R) / 5e2 (P), plus the two extreme scales 1e-80 / 1e+80 of metrics_table.EXTREME_SCALES (lengths <= 8) where term-by-term evaluation stays inside the float range",
 ]
 BUDGET = {
     "quick": {"cases": 40000, "seconds": 90, "shards": 8},
     "thorough": {"cases": 800000, "seconds": 900, "shards": 16},
 }
-REQUIRED_OBS = ["value_compared", "registry_accept_checked", "registry_reject_checked", "layout:strided", "layout:readonly"]
+REQUIRED_OBS = ["extreme_scale_cases", "value_compared", "registry_accept_checked", "registry_reject_checked", "layout:strided", "layout:readonly"]
 MIN_NONTRIVIAL = 500
 LENGTHS = [1, 2, 3, 4, 5, 8, 17, 64]
 MODELS = ["SupervisedOPF", "SemiSupervisedOPF", "KNNSupervisedOPF", "UnsupervisedOPF"]
@@ -47,7 +47,14 @@ def generate(rng, tier, idx):
     x = dom_vec(rng, kind, n, zeros=zeros)
     y = dom_vec(rng, kind, n, zeros=zeros)
     layout = ["contig", "contig", "strided", "readonly"][int(rng.integers(0, 4))]
-    return {"metric": name, "x": x.tolist(), "y": y.tolist(), "layout": layout, "zeros": zeros}
+    scale = 1.0
+    if EXTREME_SCALES.get(name) and rng.random() < 0.06:
+        scale = float(rng.choice(EXTREME_SCALES[name]))
+        n = int(rng.choice([1, 2, 3, 5, 8]))
+        x = (np.abs(rng.normal(size=n)) + 0.1 if kind in ("P", "N") else rng.normal(size=n)) * scale
+        y = (np.abs(rng.normal(size=n)) + 0.1 if kind in ("P", "N") else rng.normal(size=n)) * scale
+        zeros = False
+    return {"metric": name, "x": x.tolist(), "y": y.tolist(), "layout": layout, "zeros": zeros, "scale": scale}
 
 
 def _layout(v, layout):
@@ -88,15 +95,17 @@ def check(case):
     if name in SQRT_FORMS:
         # value = sqrt(radicand): rounding of the radicand is amplified without bound near 0, so the comparison is made
         # on the radicands (got^2 vs ref^2) with the magnitude of the radicand's terms
-        tol = 1e-9 * ref * ref + 1e-10 * mag * mag + 1e-12
+        tol = 1e-9 * ref * ref + 1e-10 * mag * mag + (1e-12 if case.get("scale", 1.0) == 1.0 else 1e-300)
         bad = not (got >= 0 and abs(got * got - ref * ref) <= tol)
     else:
-        tol = 1e-9 * abs(ref) + 1e-10 * mag + 1e-12
+        tol = 1e-9 * abs(ref) + 1e-10 * mag + (1e-12 if case.get("scale", 1.0) == 1.0 else 1e-300)
         bad = not abs(got - ref) <= tol
     if bad:
         res.violate("value", "C06/value", f"{name} len={len(x)} got {got!r} closed form {ref!r} (tol {tol:.3g}) x={x} y={y}")
     res.nontrivial = len(x) >= 2 and x != y
-    cls = "zeros" if case.get("zeros") else ("neg" if min(min(x), min(y)) < 0 else "pos")
+    if case.get("scale", 1.0) != 1.0:
+        res.see("extreme_scale_cases")
+    cls = ("scale%g" % case["scale"]) if case.get("scale", 1.0) != 1.0 else "zeros" if case.get("zeros") else ("neg" if min(min(x), min(y)) < 0 else "pos")
     res.cell(name, "len" + str(len(x)), cls, case["layout"])
     return res
 
